@@ -46,6 +46,19 @@ theorem compress_leaves_only_archive (H : Bytes → Bytes) (comp : Bytes → Byt
         r.fs.get c.output = some (.regular (createArchive H "cli" comp c.opts src))) :=
   Proofs.compress_leaves_only_archive H comp c fs htmp hdistinct hflush
 
+/-- A stale temp file left by an earlier, interrupted compress is truncated on open, does not
+reach the archive, and is gone afterwards. -/
+theorem compress_ignores_stale_temp (H : Bytes → Bytes) (comp : Bytes → Bytes) (c : CompressCmd) (fs : Fs)
+    (old : Bytes) (htmp : fs.get c.temp = some (.regular old))
+    (hdistinct : c.temp ≠ c.output ∧ c.input ≠ c.output ∧ c.input ≠ c.temp)
+    (hflush : cliTempFlushedBeforeReturn = true) :
+    let r := Cli.compress H comp c fs
+    r.ok = true →
+      r.fs.get c.temp = none ∧
+      (∃ src, (fs.get c.input).map (·.data) = some src ∧
+        r.fs.get c.output = some (.regular (createArchive H "cli" comp c.opts src))) :=
+  Proofs.compress_ignores_stale_temp H comp c fs old htmp hdistinct hflush
+
 /-! Non-vacuity. -/
 def toyH (x : Bytes) : Bytes := (x ++ List.replicate 64 0).take 64
 
